@@ -1,12 +1,12 @@
 PROPERTY = "C15"
 LEVEL = "proof"
-LEAN_MODULES = ["CifModel.Props.C15", "CifModel.Props.ReviewC15", "CifModel.Props.C15Layout", "CifModel.Props.C15Dup", "CifModel.Props.C15Events"]
+LEAN_MODULES = ["CifModel.Props.C15", "CifModel.Props.ReviewC15", "CifModel.Props.C15Layout", "CifModel.Props.C15Dup", "CifModel.Props.C15Events", "CifModel.Props.ReviewRC15"]
 REQUIRED = ["CifModel.C15_skip_depth_balanced", "CifModel.C15_skip_depth_nonneg", "CifModel.C15_skip_depth_cif", "CifModel.C15_stop_is_last", "CifModel.C15_end_ok", "CifModel.C15_positive_aborts", "CifModel.C15_skip_opens_region", "CifModel.C15_skipped_region_silent", "CifModel.C15_syntax_only_same_log", "CifModel.C15_value_mirror", "CifModel.C15_all_continue_mirror", "CifModel.C15_all_continue_mirror_parseCB", "CifModel.C15_stored_is_structural", "CifModel.C15_skip_semantics_rest", "CifModel.C15_unfiltered_is_denote", "CifModel.C15_result_nonneg", "CifModel.C15_positive_aborts_local",
             "CifModel.C15_loop_start_local", "CifModel.C15_cex_loop_start_pinned", "CifModel.C15_loop_start_code_returned",
             "CifModel.C15_stored_is_structural_any", "CifModel.C15_stop_semantics_store", "CifModel.C15_cut_extends_pruned",
             "CifModel.C15_dup_all_continue_mirror", "CifModel.C15_events_sublist", "CifModel.C15_denote_is_grammar_denote",
             "CifModel.C15_all_continue_stores_grammar_denote", "CifModel.C15_ws_reported_in_order",
-            "CifModel.C15_layout_independent", "CifModel.C15_layout_free", "CifModel.C15_layout_callbacks",
+            "CifModel.C15_layout_independent", "CifModel.C15_layout_interleaving", "CifModel.C15_layout_free", "CifModel.C15_layout_callbacks",
             "CifModel.C15_layout_callbacks_doc", "CifModel.C15_layout_all_continue", "CifModel.C15_layout_all_continue_mirror",
             "CifModel.C15_layout_stop_semantics", "CifModel.C15_layout_rendered",
             "CifModel.C15_dup_structural_any", "CifModel.C15_dup_header_dropped_column", "CifModel.C15_dup_layout",
@@ -48,8 +48,16 @@ PARTIAL = [
     "only in the whitespace runs / comments in front of their tokens give the same result, the same stored CIF and the same "
     "handler / data-name / keyword (and error) callbacks in the same order (C15_layout_independent, C15_layout_free; C15_dup_layout "
     "for the model with the duplicate diagnostics), and the whitespace callbacks are, in order, the layout of a prefix of the "
-    "tokens (each token once): every comment, and every whitespace run unless the token was scanned inside a skipped region — the "
-    "same tokens whatever the layout (C15_layout_callbacks); for a well-formed document under a program that never stops every "
+    "tokens (each token once): every comment, and every whitespace run except for SOME set of tokens that is the same whatever the "
+    "layout (C15_layout_callbacks: 'exists marks', one mark per scanned token; the statement does NOT say which tokens these are — "
+    "in the model they are the tokens scanned while the skip depth is positive, but under a skipping program nothing in a Props "
+    "statement relates a positive mark to the bypassed entities of gDoc / cutDoc; only for a program that never skips all marks "
+    "are <= 0; review rA, L2); WHERE the whitespace callbacks stand among the other callbacks: C15_layout_interleaving (one merged "
+    "log: both complete logs are built by the same sequence of steps, a scan of next_token putting the layout callbacks of the "
+    "token scanned at the same place of both logs — relative to the layout-free run, not yet a closed Spec formula over the document "
+    "tree; for parseCB only: the merged-log statement for parseCBD / parseCBR exists at lemma level (Rel / LogRel in "
+    "Lemmas/ParseCBLayoutDup, ..Rec) and is not exported, so the whitespace callbacks of the function the driver runs (parseCBR) are "
+    "tied to these theorems by the driver's run-time cross-check of the printed logs only; review rA, L1 / W1); for a well-formed document under a program that never stops every "
     "token's layout is visited (C15_layout_callbacks_doc), with all-continue handlers the callbacks are the whole layout "
     "(C15_layout_all_continue), in the terms of Spec/Grammar's printer the concatenated callback texts are the separators l 0, "
     "l 1, … of render d l (C15_layout_rendered); all document-level theorems hold with any layout "
@@ -60,14 +68,26 @@ PARTIAL = [
     "comments always, whitespace all-or-nothing per token).  C15_layout_rendered assumes that no table of the document repeats a "
     "key (decidable hypothesis hlen)",
     "which callbacks are delivered: for EVERY handler program (any callback answering CONTINUE, SKIP_CURRENT, SKIP_SIBLINGS, END or "
-    "an error code), every well-formed duplicate-free document, both modes, any layout: exactly the formula gDoc over the "
+    "an error code), every well-formed duplicate-free document (wfDocN norm d: 'norm' is FREE in C15_callbacks_formula(_layout), "
+    "C15_start_only_callbacks(_layout), C15_layout_all_continue_mirror, C15_layout_stop_semantics — they are about parseCB, which does "
+    "not look at names, so the hypothesis reads 'distinct under SOME normalisation'; they are statements about the C only for norm "
+    ":= the normalisation the C uses, where parseCBD norm = parseCB by C15_dup_is_plain_without_duplicates; in the run: ASCII "
+    "lower-casing; review rA, F1), both modes, any layout: exactly the formula gDoc over the "
     "document tree, and the return value is its second component (Spec/TraversalEventsAll.lean, C15_callbacks_formula; the only "
     "state of the formula is the number of handler callbacks delivered); special cases: docEvents for all-continue programs, "
     "evDoc for programs steering from the start callbacks only (C15_start_only_callbacks); the STORE for every program: "
     "C15_stop_semantics_store (cutDoc).  Documents WITH duplicates: see below",
     "C15_syntax_only_same_log assumes a handler program that does not look at the (NULL in syntax-only mode) handles and that "
     "the storing parse does not stop on a frame-nesting diagnostic (input not well-formed under the options)",
-    "duplicates (DUP_* diagnostics, accepting error callback; model parseCBD): for EVERY program and every well-formed document "
+    "duplicates (DUP_* diagnostics, accepting error callback; model parseCBD): DOMAIN, now a hypothesis 'hdom' IN THE STATEMENTS of "
+    "C15_dup_structural_any, C15_dup_events_sublist, C15_rec_is_dup_on_wellformed(_layout) as it was in C15_dup_stop_semantics_store "
+    "(review rA, A.8): the model does not answer MALFORMED, i.e. no loop header met during the parse loses ALL its names to the "
+    "duplicate check (data_b _a 1 loop_ _A 2).  There parser.c carries on — loop_start with an empty name list, "
+    "cif_container_create_loop answers CIF_NULL_LOOP (tolerated, no loop created), every packet gets packet_start / packet_end with an "
+    "empty packet and its values are parsed without item handler, loop_end with a NULL loop (observed by replay) — while parseCBD / "
+    "parseCBR stop with 1000.  NOT DONE: modelling this path (parseLoopD / parseLoopR / xLoopD / cElemD and the six lemma files "
+    "that split on it) — the generator still filters the class out (inside_model), so it is covered by no theorem and by no "
+    "correspondence case.  Inside the domain: for EVERY program and every well-formed document "
     "with any repetition of block codes, frame codes, scalar names and loop-header names the parse is the structural "
     "interpreter xDocD over the document tree (C15_dup_structural_any: handler steps + duplicate checks against the content "
     "stored so far, no tokens, no fuel); on duplicate-free documents no check ever fires, for every program: parseCBD = parseCB "
